@@ -4,6 +4,18 @@ set -e
 cd "$(dirname "$0")"
 export GOPROXY=off GOFLAGS=-mod=mod
 unset GOSUMDB
+# regenerate the source-fact files (T4) from /repo's current tree before building the proofs that read them
+python3 - <<'PY' || echo "setup: WARNING: fact regeneration failed (the checks regenerate them again)"
+import sys
+sys.path.insert(0, ".")
+from vlib import common, runs, conc
+tool = common.tool_path("facts")
+p = common.sh([tool, "-repo", common.REPO, "-out", runs.FACTS_LEAN], timeout=300)
+print("facts:", p.stdout.strip()[:200], p.returncode)
+class R:  # minimal report stand-in
+    def violation(self, *a, **k): print("setup: conc facts:", a[0][:300])
+conc.prepare(R())
+PY
 (cd lean && lake build driver)
 # every property module that exists (each check also builds its own target)
 for f in lean/GoderiveModel/Props/C*.lean; do
